@@ -578,7 +578,7 @@ def single_oracle(DP, F, virocon, c, want_calls=False):
         okr, _ = in_bounds(ref, R["bounds"], 0.0)
         strictly_inside = okr and in_bounds(ref * (1 + 1e-6), R["bounds"], 0.0)[0] and in_bounds(ref * (1 - 1e-6), R["bounds"], 0.0)[0]
         if strictly_inside and np.linalg.cond(A * w[:, None]) < 1e6 and len(x) >= R["npar"]:
-            d = float(np.max(np.abs(p - ref) / np.maximum(1e-3, np.abs(ref))))
+            d = float(np.max(np.abs(p - ref)) / max(1.0, float(np.max(np.abs(ref)))))
             s_ref = ssr(f, x, y, ref, sigma)
             # uniqueness is judged through the residual (the parameter error of a converged optimiser scales with
             # the conditioning of the design); a gross parameter difference is flagged as well
